@@ -592,6 +592,7 @@ def run(chk):
     d3(chk, prog)
     d4(chk, prog)
     d5(chk, prog)
+    C15.low_coverage(chk, prog)  # which bins count as null coverage: left out of the centre and of the final re-centring (shared with C15)
     C15.d1(chk, prog)            # the centring itself: one constant, estimated from the autosomal bins that have coverage (shared with C15-D1)
     d6(chk, prog)
     d7(chk, prog)
